@@ -1,2 +1,7 @@
 //! Verification hooks (feature `llg_verif`): read-only re-exports of internal
 //! functions for the external verification harness. No behaviour lives here.
+
+pub use crate::grammar_builder::VERIF_REPEAT_K;
+pub use crate::json::verif_exports::{
+    check_number_bounds, rx_float_range, rx_int_range, Decimal, NumberSchema,
+};
